@@ -6,12 +6,17 @@ TOKSTUBS = [P + x for x in ('10oasis_putcEiRNS_11OasisStreamE', '11oasis_writeEP
     '10oasis_readEPvmmRNS_11OasisStreamE', '27oasis_read_unsigned_integerERNS_11OasisStreamE', '18oasis_read_integerERNS_11OasisStreamE',
     '17oasis_read_2deltaERNS_11OasisStreamERlS2_', '17oasis_read_3deltaERNS_11OasisStreamERlS2_', '17oasis_read_gdeltaERNS_11OasisStreamERlS2_',
     '17oasis_read_stringERNS_11OasisStreamEbRm', '15oasis_read_realERNS_11OasisStreamE', '23oasis_read_real_by_typeERNS_11OasisStreamENS_13OasisDataTypeE', '16oasis_write_realERNS_11OasisStreamEd')]
+TO = '_ZNK5gdstk7Polygon6to_oasERNS_11OasisStreamERNS_10OasisStateE'
 OBLIGATIONS = [
-    Ob('polygon_shape_detection_roundtrip', 'C02/poly_oas.c', [P + '8read_oasEPKcddPNS_9ErrorCodeE', '_ZNK5gdstk7Polygon6to_oasERNS_11OasisStreamERNS_10OasisStateE'], ir='ni', stubs=TOKSTUBS, real=False,
-       what='Polygon::to_oas (rectangle + trapezoid detection on) followed by read_oas gives back the same vertex cycle, layer and datatype, whichever record (RECTANGLE, TRAPEZOID_A/B/AB, CTRAPEZOID type 0..25, POLYGON) the writer selects',
-       bound='every simple 3- and 4-vertex polygon with integer coordinates in -3..3 (non-zero area, distinct vertices); grid 1; codecs as typed tokens',
-       variants=[{'NVERT': 3}, {'NVERT': 4}], unwind=20, timeout=900, mem_gb=14, nvec=40),
+    Ob('polygon_writer_vs_reference', 'C02/poly_wr.c', [TO], ir='ni', stubs=TOKSTUBS, rename={'llround': 'my_llround'},
+       what='Polygon::to_oas under every rectangle / trapezoid detection setting: the record it selects (RECTANGLE, TRAPEZOID A/B/AB, CTRAPEZOID 0..25, POLYGON with point-list type 0..4) decodes - by a reference decoder written from the record definitions - to the vertex cycle, layer and datatype of the polygon, every field explicit; composes with the reader-side obligations of C04 / C19 (same reference) to the save/load round trip of a polygon',
+       bound='every 3- and 4-vertex polygon with distinct integer vertices in -4..4 and non-zero area (5 vertices in -3..3), 32-bit layer / datatype, scaling 1, detection flags in {none, rectangles, trapezoids, both}; codecs as typed tokens (C19 proves them)',
+       variants=[{'NVERT': n, 'FLAGS': f} for n in (3, 4) for f in (0x30, 0x20, 0x10, 0)] + [{'NVERT': 5, 'FLAGS': 0x30, 'R': 3}], unwind=12, timeout=900, mem_gb=12, nvec=60),
+    Ob('stream_signature', 'C02/signature.c', [P + '10oasis_putcEiRNS_11OasisStreamE', P + '11oasis_writeEPKvmmRNS_11OasisStreamE', P + '28oasis_write_unsigned_integerERNS_11OasisStreamEm', P + '19oasis_write_integerERNS_11OasisStreamEl'],
+       what='the running signature of the OASIS output stream equals the signature of the bytes that reached the file, for any interleaving of single-byte writes, block writes and integer codecs: CRC32 when requested (also with both kinds requested), else the byte sum when requested, else untouched',
+       bound='7 write calls (3 single bytes, 2 blocks, an unsigned < 2^21 and a signed integer), all byte values symbolic; the four combinations of the two signature flags',
+       variants=[{'WANT_CRC': c, 'WANT_SUM': k} for c in (0, 1) for k in (0, 1)], unwind=16, timeout=300, wrap_files=True, nvec=20),
 ]
-BOUNDS = ''
-OUTSIDE = ''
-ASSUMPTIONS = ['OASIS integer / delta / real / string codecs as a typed token stream (C19 proves the codecs)', 'malloc never fails']
+BOUNDS = 'single polygons with 3..5 vertices on a small integer grid; the writer and the reader are decided separately against one reference decoder'
+OUTSIDE = 'the composite write_oas -> read_oas query (no verdict: the record kind is a computed choice, the reader then allocates a symbolic amount); circle detection (transcendental); paths, labels, references, repetitions and properties in OASIS; name tables; CBLOCK compression (zlib) for 9 of 10 levels; validation signatures over whole files; repeated cycles'
+ASSUMPTIONS = ['OASIS integer / delta codecs as a typed token stream (C19 proves the codecs)', 'llround by contract (exact)', 'malloc never fails']
